@@ -91,6 +91,10 @@ func vfC08Specs(c *vfC08Case, version int) []vfworld.ZoneSpec {
 			target.Addrs, target.Tag, target.KeyGen = []string{"198.51.100.201", "198.51.100.202"}, "v2", 1
 		case "redelegate-insecure":
 			target.Addrs, target.Tag, target.Signed = []string{"198.51.100.201", "198.51.100.202"}, "v2", false
+		case "redelegate-partial-glue":
+			// the new operator keeps the host names; the parent's new referral carries glue for the second one only
+			target.Addrs, target.Tag, target.KeyGen = []string{"198.51.100.201", "198.51.100.202"}, "v2", 1
+			target.NoGlueFor = []string{"ns1." + target.Apex}
 		}
 		if c.Glueless && !changedIsDeep {
 			// the parent names another host: re-using the old host name would leave its (legitimately long-lived)
@@ -117,7 +121,11 @@ func vfC08Gen(rt *rapid.T) *vfC08Case {
 		Prefetch: rapid.SampledFrom([]int{0, 50, 90}).Draw(rt, "prefetch"),
 		QMin:     rapid.SampledFrom([]int{0, 0, 5}).Draw(rt, "qmin")}
 	c.DSTTL = c.NSTTL
-	if c.Glueless = rapid.IntRange(0, 2).Draw(rt, "glueless") == 0; c.Glueless {
+	// (the unit also runs as C01's changing-world unit; the scenario of C08's open finding is generated for C08 only)
+	if rapid.IntRange(0, 7).Draw(rt, "partialglue-change") == 0 && (os.Getenv("VERIF_PROP") == "C08" || os.Getenv("VERIF_PROP") == "") {
+		c.Change = "redelegate-partial-glue"
+	}
+	if c.Glueless = c.Change != "redelegate-partial-glue" && rapid.IntRange(0, 2).Draw(rt, "glueless") == 0; c.Glueless {
 		c.Partial = rapid.Bool().Draw(rt, "partialglue")
 		c.SlowNS = time.Duration(rapid.SampledFrom([]int{0, 1500, 3000}).Draw(rt, "slowns")) * time.Millisecond
 	}
@@ -191,6 +199,14 @@ type vfC08Result struct {
 func vfC08Run(t *testing.T, dir string, c *vfC08Case) (res vfC08Result) {
 	res.Stats = map[string]int{}
 	fail := func(f string, a ...any) {
+		if c.Change == "redelegate-partial-glue" && vfstat.KnownOpen("C08-address-cache-outlives-the-lease") {
+			// known finding: the name-server address caches keep no TTL and no tie to the delegation an address was
+			// learned under; a re-delegation that re-uses a host name without glue for it gets the old address back
+			vfstat.Known("C08.lease", "C08-address-cache-outlives-the-lease")
+			vfstat.ReportKnown("C08-address-cache-outlives-the-lease")
+			res.Stats["known-finding:stale-ns-address"]++
+			return
+		}
 		if res.Violation == "" {
 			res.Violation = fmt.Sprintf(f, a...)
 		}
